@@ -416,6 +416,10 @@ namespace GeographicLib {
     north = Math::LatFix(north);
     west = Math::AngNormalize(west); // west in [-180, 180)
     east = Math::AngNormalize(east);
+    if (!(isfinite(south) && isfinite(north) &&
+          isfinite(west) && isfinite(east)))
+      // LatFix and AngNormalize return NaN for out-of-range or infinite args
+      throw GeographicErr("Illegal area specified for cache of " + _filename);
     if (east <= west)
       east += Math::td;         // east - west in (0, 360]
     int
